@@ -19,8 +19,16 @@ use common::Tier;
 pub struct FillAlloc;
 pub static FILL: std::sync::atomic::AtomicU8 = std::sync::atomic::AtomicU8::new(0);
 
+/// Requests above this size are refused (null), as an allocator of a finite machine would: a
+/// length taken from untrusted bytes and turned into an allocation then fails the same way on
+/// every run instead of exhausting the sandbox. Nothing the checks send comes near it.
+pub const ALLOC_CAP: usize = 1 << 30;
+
 unsafe impl std::alloc::GlobalAlloc for FillAlloc {
     unsafe fn alloc(&self, l: std::alloc::Layout) -> *mut u8 {
+        if l.size() > ALLOC_CAP {
+            return std::ptr::null_mut();
+        }
         let p = std::alloc::System.alloc(l);
         let f = FILL.load(std::sync::atomic::Ordering::Relaxed);
         if f != 0 && !p.is_null() {
@@ -32,9 +40,15 @@ unsafe impl std::alloc::GlobalAlloc for FillAlloc {
         std::alloc::System.dealloc(p, l)
     }
     unsafe fn alloc_zeroed(&self, l: std::alloc::Layout) -> *mut u8 {
+        if l.size() > ALLOC_CAP {
+            return std::ptr::null_mut();
+        }
         std::alloc::System.alloc_zeroed(l)
     }
     unsafe fn realloc(&self, p: *mut u8, l: std::alloc::Layout, n: usize) -> *mut u8 {
+        if n > ALLOC_CAP {
+            return std::ptr::null_mut();
+        }
         let q = std::alloc::System.realloc(p, l, n);
         let f = FILL.load(std::sync::atomic::Ordering::Relaxed);
         if f != 0 && !q.is_null() && n > l.size() {
